@@ -18,6 +18,7 @@ type connObs struct {
 	Peers    []string `json:"peers"`
 	Rejected []string `json:"rejected"`
 	Closed   bool     `json:"closed"`
+	Stuck    bool     `json:"stuck"` // oracle only: Close is pending and nothing but a remote hang-up can let it return
 }
 
 func (o connObs) String() string {
@@ -110,29 +111,26 @@ func (rg *connRig) observe() connObs {
 
 func (rg *connRig) close() bool {
 	// attempts whose handshake has not finished would hold Close until ConnectTimeout: the remote hangs up
-	for n, ph := range rg.phase {
-		if ph == "tcp" || ph == "shaking" {
-			rg.clients[n].close()
-		}
-	}
-	ok := rg.nd.shutdown(30 * time.Second)
+	// (and so do the peers: one that was inserted after Run's teardown is closed by nobody else -- that
+	// situation is reported where it arises in a path, not here)
+	rg.nd.ps.releaseAllAdds()
 	for _, c := range rg.clients {
 		c.close()
 	}
-	return ok
+	return rg.nd.shutdown(30 * time.Second)
 }
 
-func runConnPath(g *connGroup, path []connStep, res *hx.Result) (sig, desc string, at int, capExceeded string) {
+func runConnPath(g *connGroup, path []connStep, res *hx.Result) (sig, desc string, at int, capExceeded, stuck string) {
 	rg, err := newConnRig(g)
 	if err != nil {
-		return "infra", err.Error(), -1, ""
+		return "infra", err.Error(), -1, "", ""
 	}
 	defer func() {
 		for _, ch := range rg.shakeCh {
 			_ = ch
 		}
 		if !rg.close() && sig == "" {
-			sig, desc, at = "replay:conn:close-hangs", "Syncer.Close did not return within 30 s", len(path)
+			sig, desc, at = "replay:conn:close-hangs", "Syncer.Close did not return within 30 s; phases "+fmt.Sprint(rg.phase)+"\n"+syncerStacks(), len(path)
 		}
 	}()
 	srv := rg.nd.s.Addr()
@@ -149,7 +147,7 @@ func runConnPath(g *connGroup, path []connStep, res *hx.Result) (sig, desc strin
 			rg.phase[name] = "tcp"
 			// allowConnect has run once the PeerStore has seen Banned and s.mu has been released again
 			if !waitFor(settleDeadline, func() bool { return rg.nd.ps.numChecks() > pre || serverClosed(c.conn) }) {
-				return "replay:conn:AllowCheck:no-check", fmt.Sprintf("connection %s was accepted but allowConnect never consulted the peer store", name), i, capExceeded
+				return "replay:conn:AllowCheck:no-check", fmt.Sprintf("connection %s was accepted but allowConnect never consulted the peer store", name), i, capExceeded, stuck
 			}
 			rg.nd.s.Peers()
 		case "Handshake":
@@ -171,7 +169,7 @@ func runConnPath(g *connGroup, path []connStep, res *hx.Result) (sig, desc strin
 				return done && (herr != nil || rg.nd.ps.addCalled(c.addr()))
 			})
 			if !ok || herr != nil {
-				return "replay:conn:Handshake:failed", fmt.Sprintf("handshake of %s did not complete: %v", name, herr), i, capExceeded
+				return "replay:conn:Handshake:failed", fmt.Sprintf("handshake of %s did not complete: %v", name, herr), i, capExceeded, stuck
 			}
 			rg.phase[name] = "shaken"
 		case "AddPeer":
@@ -180,6 +178,8 @@ func runConnPath(g *connGroup, path []connStep, res *hx.Result) (sig, desc strin
 		case "RemovePeer", "Abort":
 			c.close()
 			rg.phase[name] = "dead"
+		case "CloseListener":
+			rg.nd.l.Close() // the first statement of Syncer.Close
 		case "StopBegin":
 			rg.nd.beginClose()
 			// an attempt whose handshake has not started would hold Close until the handshake deadline
@@ -191,7 +191,7 @@ func runConnPath(g *connGroup, path []connStep, res *hx.Result) (sig, desc strin
 				}
 			}
 		default:
-			return "infra", "unknown action " + st.Act.Op, i, capExceeded
+			return "infra", "unknown action " + st.Act.Op, i, capExceeded, stuck
 		}
 		res.Eval(fmt.Sprintf("%d|%s.%s|%s", g.MaxIn, st.Act.Op, name, st.Obs.String()))
 		var got connObs
@@ -202,7 +202,15 @@ func runConnPath(g *connGroup, path []connStep, res *hx.Result) (sig, desc strin
 			ok = got.String() == st.Obs.String()
 		}
 		if !ok {
-			return "replay:conn:" + st.Act.Op + ":state", fmt.Sprintf("after %s(%s) [maxIn=%d] the syncer shows %s, the implementation-shaped specification says %s", st.Act.Op, name, g.MaxIn, got, st.Obs), i, capExceeded
+			return "replay:conn:" + st.Act.Op + ":state", fmt.Sprintf("after %s(%s) [maxIn=%d] the syncer shows %s, the implementation-shaped specification says %s", st.Act.Op, name, g.MaxIn, got, st.Obs), i, capExceeded, stuck
+		}
+		if st.Obs.Stuck && stuck == "" {
+			// the implementation-shaped specification says Close now depends on the remote: confirm on the real syncer
+			time.Sleep(150 * time.Millisecond)
+			if !rg.nd.closeReturned() {
+				stuck = fmt.Sprintf("step %d %s(%s): Syncer.Close has been called, every handshake is finished and nothing is held, but Close does not return: peer(s) %v were inserted by addPeer after Run's teardown had closed the peers, nobody closes them, and their runPeer (a member of the thread group) waits in acceptRPC until the REMOTE hangs up",
+					i, st.Act.Op, name, got.Peers)
+			}
 		}
 		// the property itself, on the real syncer: never more inbound peers than the cap
 		lim := g.MaxIn
@@ -213,7 +221,7 @@ func runConnPath(g *connGroup, path []connStep, res *hx.Result) (sig, desc strin
 			capExceeded = fmt.Sprintf("step %d %s(%s): %d inbound peers are connected, WithMaxInboundPeers(%d); every one of them passed allowConnect before any was inserted by addPeer", i, st.Act.Op, name, n, g.MaxIn)
 		}
 	}
-	return "", "", 0, capExceeded
+	return "", "", 0, capExceeded, stuck
 }
 
 // TestReplayConn steps real syncers through the cover of the eager CONN graph: AllowCheck = a raw
@@ -240,9 +248,9 @@ func TestReplayConn(t *testing.T) {
 			go func(g *connGroup, p []connStep, pi int) {
 				defer wg.Done()
 				defer func() { <-sem }()
-				sig, desc, at, capx := runConnPath(g, p, res)
+				sig, desc, at, capx, stuck := runConnPath(g, p, res)
 				if sig != "" && sig != "infra" {
-					sig, desc, at, capx = runConnPath(g, p, res)
+					sig, desc, at, capx, stuck = runConnPath(g, p, res)
 				}
 				if sig == "infra" {
 					res.Note("conn path %d: %s", pi, desc)
@@ -257,6 +265,9 @@ func TestReplayConn(t *testing.T) {
 				}
 				if capx != "" {
 					res.Mismatch("replay:conn:inbound-cap-exceeded", fmt.Sprintf("path %d %s", pi, capx), rep(len(p)))
+				}
+				if stuck != "" {
+					res.Mismatch("replay:conn:close-blocked-by-unswept-peer", fmt.Sprintf("path %d %s", pi, stuck), rep(len(p)))
 				}
 				if sig != "" {
 					res.Mismatch(sig, fmt.Sprintf("path %d step %d: %s", pi, at, desc), rep(at+1))
